@@ -3,6 +3,7 @@ import Glom.Model.C17Env
 import Glom.Spec.C17Streams
 import Glom.Model.C17Boltons
 import Glom.Spec.C17Args
+import Glom.Spec.C17Events
 /-
   C17 driver: one JSON case in, one JSON verdict out.
 
@@ -704,6 +705,67 @@ def runArgs (j : Json) : Except String Json := do
           checkSource src i.pulls 1 a),
         ("model", takeToJson m), ("branch", s!"args-take-{finName m.fin}"), ("why", "")]
 
+/-! ### a consumer that goes on after exceptions -/
+
+def evtToJson (o : Option Evt × Nat) : Json :=
+  match o.1 with
+  | some (.item v) => Json.mkObj [("item", vToJson v), ("pulls", o.2)]
+  | some (.err e) => Json.mkObj [("raised", e), ("pulls", o.2)]
+  | none => Json.mkObj [("end", "exhausted"), ("pulls", o.2)]
+
+def evtOfJson (j : Json) : Except String (Option Evt × Nat) := do
+  let p ← j.getObjValAs? Nat "pulls"
+  if let .ok v := j.getObjVal? "item" then return (some (.item (← vOfJson v)), p)
+  if let .ok e := j.getObjValAs? String "raised" then return (some (.err e), p)
+  match ← j.getObjVal? "end" with
+  | .str "exhausted" => return (none, p)
+  | x => throw s!"bad event {x.compress}"
+
+def optEvtEq : Option Evt → Option Evt → Bool
+  | some a, some b => a == b
+  | none, none => true
+  | _, _ => false
+
+/-- Events case: {"kind":"events", "sub":…, "sentinel":…, "ops":[op…], "src":…, "n":n,
+      "impl":{"open":"ok"|{"raised":cls}, "open_pulls":n, "events":[{"item":V,"pulls":n}|{"raised":cls,"pulls":n}|{"end":"exhausted","pulls":n}…]}}
+    `n` calls of next() on ONE iterator, every exception caught and the loop continued -/
+def runEventsCase (j : Json) : Except String Json := do
+  let kinds ← pipeOfJson j
+  let src ← srcOfJson (← j.getObjVal? "src")
+  let (xs, tail) := match src with
+    | .fin xs tail => (xs, tail)
+    | .inf _ => ([], none)
+  let n ← j.getObjValAs? Nat "n"
+  let impl ← j.getObjVal? "impl"
+  if !(kinds.all Kind.wf) then throw "events case: a stage is outside the domain"
+  if kinds.any (fun k => k.primeCount != 0 || k.glomitErr.isSome) then
+    throw "events case: windowed / glomit-raising stages are not part of this class"
+  let iOpenErr : Option Err ← (match ← impl.getObjVal? "open" with
+    | .str "ok" => pure none
+    | o => do return some (← o.getObjValAs? String "raised"))
+  let iEvents ← (← arr (← impl.getObjVal? "events")).mapM evtOfJson
+  let r := probeCount j
+  let iAfter ← afterOfJson impl
+  match runEvents kinds src FUEL n with
+  | .oof => return Json.mkObj [("skip", true), ("why", "model ran out of fuel")]
+  | .glomitRaised e p =>
+    let ok := iOpenErr == some e && (← impl.getObjValAs? Nat "open_pulls") == p
+    return Json.mkObj [("agree", ok), ("holds", ok), ("model", Json.mkObj [("open", Json.mkObj [("raised", e)])]),
+      ("branch", "events-open-raised"), ("why", "")]
+  | .opened mEvents =>
+    if mEvents.length < n && (match mEvents.getLast? with | some (none, _) => false | _ => true) then
+      return Json.mkObj [("skip", true), ("why", "model ran out of fuel")]
+    let agree := iOpenErr.isNone && mEvents.length == iEvents.length &&
+      ((mEvents.zip iEvents).all fun (a, b) => optEvtEq a.1 b.1 && a.2 == b.2) &&
+      src.after (match mEvents.getLast? with | some (_, p) => p | none => 0) r == iAfter
+    let iPos := match iEvents.getLast? with | some (_, p) => p | none => 0
+    let holds := iOpenErr.isNone && checkEvents kinds xs tail (iEvents.map (·.1)) && checkSource src iPos r iAfter
+    let nerr := (mEvents.filter fun o => match o.1 with | some (.err _) => true | _ => false).length
+    return Json.mkObj [("agree", agree), ("holds", holds),
+      ("model", Json.mkObj [("events", Json.arr (mEvents.map evtToJson).toArray)]),
+      ("branch", s!"events-{nerr}-errors"),
+      ("why", if holds then "" else "after an exception the stream does not go on as the composition of map / filter / itertools objects does (or the source is not where it left it)")]
+
 /-! ### boltons' helpers, as written -/
 
 open Glom.C17.Boltons in
@@ -855,6 +917,7 @@ def run (j : Json) : Except String Json := do
   | .ok "streams" => runStreams j
   | .ok "boltons" => runBoltons j
   | .ok "args" => runArgs j
+  | .ok "events" => runEventsCase j
   | _ => runIter j
 
 end Glom.C17.Driver
